@@ -91,6 +91,16 @@ pub fn run(args: &Args) {
         exercise("dyn:file", &data, DynamicAsset::from(FileAsset::from(file_of(&data, i * 4 + 1))), &mut r, &mut out, ops);
         exercise("dyn:gzip", &data, DynamicAsset::from(GzipAsset::new(std::io::Cursor::new(gz_of(&data))).expect("gzip")), &mut r, &mut out, ops);
     }
+    // files far larger than any snapshot (a long tape image): the same contract, fewer calls
+    for i in 0..args.num("big", 0) {
+        let len = if i % 2 == 0 { *r.pick(&[262_145usize, 300_001, 524_289]) } else { *r.pick(&[65_537usize, 131_073]) + if args.num("huge", 0) > 0 { 1_000_000 } else { 0 } };
+        let data = r.bytes(len);
+        let ops = 24;
+        exercise("cursor", &data, BufferCursor::new(data.clone()), &mut r, &mut out, ops);
+        exercise("file", &data, FileAsset::from(file_of(&data, 1000 + i * 4)), &mut r, &mut out, ops);
+        exercise("gzip", &data, GzipAsset::new(std::io::Cursor::new(gz_of(&data))).expect("gzip"), &mut r, &mut out, ops);
+        exercise("dyn:gzip", &data, DynamicAsset::from(GzipAsset::new(std::io::Cursor::new(gz_of(&data))).expect("gzip")), &mut r, &mut out, ops);
+    }
     let n = out.finish();
     eprintln!("assets: {n} events");
     let _: Option<Value> = None;
